@@ -1,16 +1,16 @@
 SPECIFICATION Spec
 CONSTANTS
   CertKeys = {"k1","k2"}
-  EncKeys = {"e1","e2"}
+  EncKeys = {"e1"}
   Nonces = {"n1"}
   Tokens = {"t1","t2"}
-  AppStates = {"s1"}
+  AppStates = {}
   NodeIds = {"N1"}
-  Enabled = {"Authorize","Token","Remove","Fetch","Tamper","Regw"}
+  Enabled = {"Token","Race"}
   MaxGen = 2
   CfgSW = TRUE
   CfgNidl = FALSE
   CfgSO = FALSE
   CfgRmErr = FALSE
-INVARIANTS InvC06Step InvC06Once InvC06Gone
+INVARIANTS InvC06Once
 CHECK_DEADLOCK FALSE
